@@ -66,3 +66,64 @@ Example C04_fish_example :
                             mkRaw (B [99]) (B [99]) [] [] [] [] []])
   = Some [mkD (B [97;98]) (B [97;98]) (B [100]) None [] []; mkD (B [99]) (B [99]) [] None [] []].
 Proof. vm_compute. reflexivity. Qed.
+
+(* ---------- the JSON formats, byte level (Proofs/JsonShells.v on Proofs/JsonRoundtrip.v) ----------
+   A JSON reader applied to the emitted bytes yields ONE record per candidate, in order, each with the
+   fields that were put in ([jsan]: strings only changed by the encoder's own UTF-8 sanitising).
+   powershell: per candidate with a non-empty value (the formatter skips the others: C06 finding);
+   nushell: for candidates without a style (the style member is spliced in as pre-rendered JSON). *)
+From CV Require Import Model.JsonParse Proofs.JsonRoundtrip Proofs.JsonShells.
+
+Theorem C04_xonsh_records : forall m vs,
+  jparse (xonsh_format m vs) = Some (JArr (map (fun v => jsan (xonsh_record m v)) vs)).
+Proof. exact xonsh_records. Qed.
+Print Assumptions C04_xonsh_records.
+
+Theorem C04_ion_records : forall m vs,
+  jparse (ion_format m vs) = Some (JArr (map (fun v => jsan (ion_record m v)) vs)).
+Proof. exact ion_records. Qed.
+Print Assumptions C04_ion_records.
+
+Theorem C04_powershell_records : forall e m vs,
+  jparse (powershell_format e m vs) = Some (JArr (map (fun v => jsan (powershell_record e m v)) (ps_kept vs))).
+Proof. exact powershell_records. Qed.
+Print Assumptions C04_powershell_records.
+
+Theorem C04_nushell_records : forall m vs, Forall (fun v => rstyle v = []) vs ->
+  jparse (nushell_format m vs) = Some (JArr (map (fun v => jsan (nushell_record m v)) vs)).
+Proof. exact nushell_records. Qed.
+Print Assumptions C04_nushell_records.
+
+Theorem C04_elvish_records : forall e m vs, exists usage msgs style,
+  jparse (elvish_format e m vs) =
+  Some (JObj [(B [85;115;97;103;101], usage); (B [77;101;115;115;97;103;101;115], msgs);
+              (B [68;101;115;99;114;105;112;116;105;111;110;83;116;121;108;101], style);
+              (B [67;97;110;100;105;100;97;116;101;115], JArr (map (fun v => jsan (elvish_record m v)) vs))]).
+Proof. exact elvish_records. Qed.
+Print Assumptions C04_elvish_records.
+
+(* ---------- zsh, the whole frame (Proofs/ZshFraming.v) ----------
+   zstyle \001 message \001 blocks \001; blocks \002-separated: tag \003 display lines \003 value lines.
+   When no field holds a byte \001-\003 (outside the claim) and no rendered line is empty (the refuted
+   case above), the snippet's decoding yields the zstyle text, the message text and ONE record per
+   candidate, tag by tag; TAB / CR / LF in any field cannot split a record (the sanitizer deletes them:
+   obligations on the regenerated tables, closed by vm_compute inside tables_free). *)
+From CV Require Import Proofs.ZshFraming.
+
+Theorem C04_zsh_decode : forall e m vs, env_ok e -> meta_ok m -> Forall raw_ok vs ->
+  Forall (fun v => zsh_display v <> [] /\ zsh_value e (zsh_state (zsh_raw e)) m v <> []) (map zsh_retag vs) ->
+  decode_zsh (zsh_format e m vs) =
+  Some (zstyles_format e (map zsh_retag vs), zsh_message_format e m,
+        concat (map (fun g => map (zrec (fst g)) (snd g)) (zsh_groups e m vs))).
+Proof. exact zsh_decode. Qed.
+Print Assumptions C04_zsh_decode.
+
+Theorem C04_zsh_record_of_candidate : forall e m vs v, In v (map zsh_retag vs) ->
+  In (zrec (tag v) (zsh_display v, zsh_value e (zsh_state (zsh_raw e)) m v))
+     (concat (map (fun g => map (zrec (fst g)) (snd g)) (zsh_groups e m vs))).
+Proof. exact zsh_record_of_candidate. Qed.
+Print Assumptions C04_zsh_record_of_candidate.
+
+Theorem C04_zsh_lines_hold_no_break : forall v e st m, ~ In LF (zsh_display v) /\ ~ In LF (zsh_value e st m v).
+Proof. exact zsh_lines_no_break. Qed.
+Print Assumptions C04_zsh_lines_hold_no_break.
